@@ -151,6 +151,8 @@ def gen_worker(d: D, prof: dict, depth: int, n_hint: int) -> dict:
         ws["callfault"] = sorted({d.i(0, max(0, n_hint - 1)) for _ in range(d.i(1, 2))})
     elif d.p(prof.get("p_bad_return", 0.0)) and n_hint > 0 and prof.get("_kind_hint") in ("apply", "start"):
         ws["bad_return_at"] = d.i(0, n_hint - 1)
+    if d.p(0.07):
+        ws["retval"] = d.i(0, 3)       # the value a worker returns is its own business: an exception *instance*, None, ...
     ws["fname"] = d.pick(prof["fnames"])
     if "ends" in ws or "callfault" in ws:
         ws["fault_kind"] = d.i(0, 5)
@@ -186,6 +188,8 @@ def gen_spawn(d: D, prof: dict, depth: int, op: Optional[dict] = None) -> dict:
         nk = d.i(-1, 2)
         if nk:
             op["nkw"] = nk
+            if nk > 0 and d.p(0.3):
+                op["kwkeys"] = d.i(0, 19)       # keyword names that also occur as parameter names inside the library
         if d.p(0.2):
             op["pass_args"] = True
         r2 = d.i(0, 9)
@@ -310,6 +314,8 @@ def gen_pool(d: D, prof: dict) -> dict:
         spec["worker"].pop("call_op", None)
         spec["worker"]["nargs"] = d.i(0, 2)
         spec["worker"]["nkw"] = d.i(-1, 2)
+        if spec["worker"]["nkw"] > 0 and d.p(0.3):
+            spec["worker"]["kwkeys"] = d.i(0, 19)
         e = gen_cb(d, prof, 1)
         c = gen_cb(d, prof, 1)
         if e is not None:
